@@ -642,6 +642,26 @@ func (c *FuncCtx) specBuiltin(st *State, name string, x *ast.CallExpr) ([]*Val, 
 		v := c.eval(st, c.atCallExpr.Args[k])
 		st.bound = saved
 		return []*Val{v}, true
+	case "recv":
+		// recv(): the receiver of the method call an "at call" clause is attached to
+		if c.atCallExpr == nil {
+			limitf("recv() is only meaningful in an \"at call\" clause")
+		}
+		sel, ok := ast.Unparen(c.atCallExpr.Fun).(*ast.SelectorExpr)
+		if !ok {
+			limitf("recv(): the call has no receiver")
+		}
+		saved := st.bound
+		nb := map[string]*Val{}
+		for n, v := range saved {
+			if strings.HasPrefix(n, "$") {
+				nb[n] = v
+			}
+		}
+		st.bound = nb
+		v := c.eval(st, sel.X)
+		st.bound = saved
+		return []*Val{v}, true
 	case "transient":
 		return b(c.transientTerm(c.eval(st, x.Args[0]))), true
 	case "allocated":
